@@ -2,6 +2,7 @@ package prc
 
 import (
 	"google.golang.org/grpc"
+	"sync"
 )
 
 type sharedStream interface {
@@ -30,10 +31,13 @@ func newServerStream(address PhysicalAddress, shared *Shared, stream Shared_Stre
 
 type clientStream struct {
 	*sharedStreamProcess
-	stream Shared_StreamHandlerServer
+	stream   Shared_StreamHandlerServer
+	sendLock sync.Mutex // gRPC 流不允许并发发送：发送协程的批量消息与分离流时的告别消息可能同时发生
 }
 
 func (c *clientStream) Send(message *SharedMessage) error {
+	c.sendLock.Lock()
+	defer c.sendLock.Unlock()
 	return c.stream.Send(message)
 }
 
@@ -47,11 +51,14 @@ func (c *clientStream) Close() {
 
 type serverStream struct {
 	*sharedStreamProcess
-	cc     *grpc.ClientConn
-	stream Shared_StreamHandlerClient
+	cc       *grpc.ClientConn
+	stream   Shared_StreamHandlerClient
+	sendLock sync.Mutex // gRPC 流不允许并发发送（含 CloseSend）
 }
 
 func (s *serverStream) Send(message *SharedMessage) error {
+	s.sendLock.Lock()
+	defer s.sendLock.Unlock()
 	return s.stream.Send(message)
 }
 
@@ -60,6 +67,8 @@ func (s *serverStream) Recv() (*SharedMessage, error) {
 }
 
 func (s *serverStream) Close() {
+	s.sendLock.Lock()
 	_ = s.stream.CloseSend()
+	s.sendLock.Unlock()
 	_ = s.cc.Close()
 }
